@@ -279,3 +279,8 @@ mod tests {
         );
     }
 }
+
+// verification hook: bounded-model-checking harnesses (compiled only by Kani, `--cfg kani`)
+#[cfg(kani)]
+#[path = "/verif/harness/h_buffered_input.rs"]
+mod verif;
